@@ -64,6 +64,8 @@ func genStep(t *rapid.T) Step {
 		s.Arg = rapid.IntRange(1, 6000).Draw(t, "arg")
 		if rapid.IntRange(0, 3).Draw(t, "swap") == 0 {
 			s.Op, s.Rel = "SwapParked", rapid.SampledFrom([]string{"parked", "parked", "last"}).Draw(t, "swaprel")
+		} else if rapid.IntRange(0, 3).Draw(t, "moveyielded") == 0 {
+			s.Op, s.Rel = "MoveYielded", rapid.SampledFrom([]string{"beyond", "far", "gap", "before"}).Draw(t, "moverel")
 		}
 	case 14, 15, 16:
 		s.Op = "DeleteRange"
@@ -164,6 +166,7 @@ type itState[K any] struct {
 	stable    map[int]struct{}
 	pending   map[int]struct{}
 	created   int // obligations created by rule 7
+	lastK     K   // the key object the iterator handed out last
 }
 
 type exec[K any] struct {
@@ -359,6 +362,7 @@ func (e *exec[K]) next(s *itState[K]) error {
 	}
 	s.pending = map[int]struct{}{}
 	s.last, s.hasLast = lk, true
+	s.lastK = p.Key
 	s.yielded++
 	if j := e.succIdx(s, lk); j >= 0 {
 		s.parked, s.hasParked = e.m.Es[j].Reps[0], true
@@ -533,6 +537,36 @@ func (e *exec[K]) mutate(st Step) error {
 				e.put(x)
 			}
 		}
+	case "MoveYielded":
+		// the key object the iterator has just handed out is moved: taken out of the collection, rewritten so that
+		// it sorts elsewhere (it is the caller's now), put in again. The iterator has yielded it; it has no more use for it.
+		s := e.its[st.It]
+		if s == nil || !s.hasLast || e.kk.Set == nil {
+			return nil
+		}
+		if i, present := e.m.Find(s.last); !present || e.m.Es[i].Reps[0] != s.last || e.kk.Un(s.lastK) != s.last {
+			return nil // (gone already, or stored under another representative of its class)
+		}
+		to := k
+		if _, taken := e.m.Find(to); taken {
+			return nil
+		}
+		e.del(s.last)
+		e.kk.Set(s.lastK, to)
+		e.id++
+		v := &tk.Val{ID: e.id}
+		if !e.c.IsMap() {
+			v = nil
+		}
+		e.c.Put(s.lastK, v)
+		if e.m.Put(to, v) {
+			for _, o := range e.its {
+				if o != nil && !o.done {
+					o.pending[e.canon(to)] = struct{}{}
+				}
+			}
+		}
+		e.out.Label("yielded-key-object-moved")
 	case "SwapParked":
 		// the key at the position of interest leaves and a neighbour that was absent takes its place (the same
 		// slot of the same node, as likely as not): two changes that may each be "local" and cancel out in
